@@ -78,19 +78,40 @@ fn params() -> NoiseParams {
     }
 }
 
-/// For output width OV::BITS: the share on the non-excluded side is (sample - shift) mod 2^BITS (two's complement
-/// wrap of the noise value in -shift..=shift, so -1 maps to 2^BITS - 1), the other side is zero.
+/// `ShiftedTruncatedDiscreteLaplace::new`: the stored modulus is exactly 2^bit_size for every bit_size <= 32
+/// (in particular 2^32 at 32 bits, not 2^32 - 1) and the stored shift is the sampler's truncation point.
+#[kani::proof]
+#[kani::unwind(34)]
+#[kani::stub(OPRFPaddingDp::new, stub_padding_new)]
+fn c12_shifted_laplace_new_modulus() {
+    let bits: u32 = kani::any();
+    kani::assume(bits >= 1 && bits <= 32);
+    kani::cover!(bits == 32);
+    kani::cover!(bits == 1);
+    let Ok(d) = ShiftedTruncatedDiscreteLaplace::new(&params(), bits) else {
+        kani::assume(false);
+        unreachable!()
+    };
+    assert!(u128::from(d.modulus) == 1u128 << bits);
+    assert!(d.shift == d.truncated_discrete_laplace.get_shift() && d.shift <= 1_000_000);
+}
+
+/// `sample_shares` for output width OV::BITS, given the state `new` establishes (modulus = 2^BITS, proved above):
+/// the share on the non-excluded side is (sample - shift) mod 2^BITS (two's complement wrap of the noise value in
+/// -shift..=shift, so -1 maps to 2^BITS - 1), the other side is zero.
 macro_rules! sample_shares {
     ($name:ident, $ov:ty, $unwind:expr) => {
         #[kani::proof]
         #[kani::unwind($unwind)]
         #[kani::stub(ShiftedTruncatedDiscreteLaplace::sample, stub_sample)]
-        #[kani::stub(OPRFPaddingDp::new, stub_padding_new)]
         fn $name() {
             let bits = <$ov as SharedValue>::BITS;
-            let Ok(d) = ShiftedTruncatedDiscreteLaplace::new(&params(), bits) else {
-                kani::assume(false);
-                unreachable!()
+            let shift: u32 = kani::any();
+            kani::assume(shift <= 1_000_000);
+            let d = ShiftedTruncatedDiscreteLaplace {
+                truncated_discrete_laplace: mk_padding_dp(shift),
+                shift,
+                modulus: (1u64 << bits) as _,
             };
             let left: bool = kani::any();
             let dir = if left { Direction::Left } else { Direction::Right };
@@ -100,10 +121,23 @@ macro_rules! sample_shares {
             kani::cover!(noise == -1);
             kani::cover!(noise == 1);
             kani::cover!(noise == 0);
-            let expect = noise.rem_euclid(1i64 << bits) as u128;
+            // (s - shift) mod 2^bits: subtraction modulo 2^32 followed by keeping the low `bits` bits is exact because
+            // 2^bits divides 2^32 (bits <= 32). Division-free on purpose (a second wide `%` costs minutes in SAT).
+            let expect = u128::from(s.wrapping_sub(d.shift)) & ((1u128 << bits) - 1);
             let (zero_side, noise_side) = if left { (r.left(), r.right()) } else { (r.right(), r.left()) };
-            assert!(zero_side == <$ov as SharedValue>::ZERO);
-            assert!(noise_side.as_u128() == expect);
+            // values are read through the raw storage bytes (little endian): `as_u128` / `==` on bit arrays go
+            // through bitvec's domain iterators, which cost CBMC minutes of symbolic execution (measured: 6 min)
+            let raw = |x: &$ov| {
+                let mut v = 0u128;
+                let mut k = 0;
+                while k < (bits as usize) / 8 {
+                    v |= u128::from(x.as_raw_slice()[k]) << (8 * k);
+                    k += 1;
+                }
+                v
+            };
+            assert!(raw(&zero_side) == 0);
+            assert!(raw(&noise_side) == expect);
         }
     };
 }
